@@ -341,6 +341,11 @@ theorem exec_invariants (ops : List Op) (h : Heap) (hw : h.WF) (hm : h.Maps) :
         cases ho : h.objs[i]? with
         | none => exact ⟨hw, hm⟩
         | some o => exact ⟨Heap.wf_setObj hw ho rfl, hm⟩
+      | truncPayload i n =>
+        simp only [step, Heap.truncPayload]
+        cases ho : h.objs[i]? with
+        | none => exact ⟨hw, hm⟩
+        | some o => exact ⟨Heap.wf_setObj hw ho rfl, hm⟩
       | rewrap i =>
         simp only [step, Heap.decoded]
         cases hv : h.view i with
